@@ -33,12 +33,13 @@ def classes():
     """module-level classes so that pickle can find them"""
     global _classes
     if _classes is None:
-        from sqlobject import SQLObject, IntCol, MultipleJoin
+        from sqlobject import SQLObject, IntCol, MultipleJoin, DatabaseIndex
 
         class VOrmEager(SQLObject):
             a = IntCol(default=None)
             u = IntCol(alternateID=True)
             n = IntCol(notNone=True, default=0)
+            uIdx = DatabaseIndex('u', unique=True)      # unique-index lookups (C04): VOrmEager.uIdx.get(value)
 
         class VOrmLazy(SQLObject):
             class sqlmeta:
@@ -46,6 +47,7 @@ def classes():
             a = IntCol(default=None)
             u = IntCol(alternateID=True)
             n = IntCol(notNone=True, default=0)
+            uIdx = DatabaseIndex('u', unique=True)
 
         class VOrmNoCV(SQLObject):
             class sqlmeta:
@@ -53,6 +55,7 @@ def classes():
             a = IntCol(default=None)
             u = IntCol(alternateID=True)
             n = IntCol(notNone=True, default=0)
+            uIdx = DatabaseIndex('u', unique=True)
         for c in (VOrmEager, VOrmLazy, VOrmNoCV):
             # the instances are FALSY (an application class may define __len__/__bool__, e.g. a container-like row):
             # library code that tests an instance or a weak reference's referent for truth instead of `is None` shows up
@@ -158,7 +161,7 @@ def run_history(case):
 
     def do(op):
         t = op[0]
-        if t in ('create', 'get', 'byalt', 'unpickle', 'fk') or (t in ('select', 'join') and op[3] is not None):
+        if t in ('create', 'get', 'byalt', 'unpickle', 'fk', 'index') or (t in ('select', 'join') and op[3] is not None):
             n = len(slots)
             try:
                 return do2(op)
@@ -198,6 +201,12 @@ def run_history(case):
             return ['objs', res]
         if t == 'byalt':
             o = cls[op[1]].byU(op[2])
+            tok = token(o)
+            slots.append(o)
+            return ['obj', o.id, tok]
+        if t == 'index':
+            # the get() of a unique DatabaseIndex, by position or by keyword: selectBy(u=value).getOne()
+            o = cls[op[1]].uIdx.get(op[2]) if len(op) < 4 or op[3] != 'kw' else cls[op[1]].uIdx.get(u=op[2])
             tok = token(o)
             slots.append(o)
             return ['obj', o.id, tok]
@@ -280,7 +289,7 @@ def run_history(case):
 
     EXC = {'SQLObjectNotFound': 'ENotFound', 'Invalid': 'EInvalid', 'DuplicateEntryError': 'EDuplicate',
            'IntegrityError': 'EIntegrity', 'OperationalError': 'EOperational', 'AssertionError': 'EAssertion',
-           'ValueError': 'EValue', 'TypeError': 'ETypeError', 'AttributeError': 'EAttribute', 'IndexError': 'EBadHandle', 'KeyError': 'EKey'}
+           'SQLObjectIntegrityError': 'EIntegrity', 'ValueError': 'EValue', 'TypeError': 'ETypeError', 'AttributeError': 'EAttribute', 'IndexError': 'EBadHandle', 'KeyError': 'EKey'}
 
     def dump():
         raw = conn.getConnection()
@@ -459,14 +468,16 @@ def cpath(op):
         return '(PFk %d%%nat %s)' % (op[1], ckind(op[2]))
     if op[0] == 'join':
         return '(PJoin %d%%nat %s %s)' % (op[1], ckind(op[2]), 'None' if op[3] is None else '(Some %d%%nat)' % op[3])
+    if op[0] == 'index':
+        return '(PIndex %s %s)' % (ckind(op[1]), z(op[2]))
     raise ValueError(op)
 
 
 def cpop(op):
     """operations of Model/OrmPaths.v: base operations, foreign-key traversal, join accessor"""
-    if op[0] in ('fk', 'join'):
+    if op[0] in ('fk', 'join', 'index'):
         return '(PPath %s)' % cpath(op)
-    if op[0] == 'fault' and op[2][0] in ('fk', 'join'):
+    if op[0] == 'fault' and op[2][0] in ('fk', 'join', 'index'):
         return '(PFaultPath %d%%nat %s)' % (op[1], cpath(op[2]))
     return '(PBase %s)' % cop(op)
 
@@ -619,6 +630,8 @@ def gen_history(rng, profile, length):
             return ['select', k, rng.choice([None, None, 0, 1, 2]), keep]
         if t == 'byalt':
             return ['byalt', k, rng.randint(100, max(100, nextu[0]))]
+        if t == 'index':
+            return ['index', k, rng.randint(100, max(100, nextu[0]))] + (['kw'] if rng.random() < 0.4 else [])
         if t in ('read', 'setattr', 'set', 'syncupdate', 'sync', 'expire', 'destroy', 'drop', 'pickle', 'fk', 'join'):
             if not live:
                 return ['get', k, rng.randint(1, nextid[k] + 1)]
@@ -668,7 +681,7 @@ def gen_history(rng, profile, length):
         # bookkeeping guesses (only steer generation; the truth is what the implementation does)
         core = op[2] if op[0] == 'fault' else op
         t = core[0]
-        if t in ('create', 'get', 'byalt', 'unpickle', 'fk'):
+        if t in ('create', 'get', 'byalt', 'unpickle', 'fk', 'index'):
             live.append(nslots)
             nslots += 1
             if t == 'create':
@@ -753,7 +766,7 @@ def identities(case, obs):
     for op, st in zip(case['ops'], obs['steps']):
         core = core_op(op)
         t = core[0]
-        creates = t in ('create', 'get', 'byalt', 'unpickle', 'fk') or (t in ('select', 'join') and core[3] is not None)
+        creates = t in ('create', 'get', 'byalt', 'unpickle', 'fk', 'index') or (t in ('select', 'join') and core[3] is not None)
         if not creates:
             continue
         n = len(ident)
@@ -858,7 +871,7 @@ def coherence_failures(st, skip_slots=(), lazy_row_ok=False):
 
 
 # ------------------------------------------------------------------ shrinking a failing history
-SLOT_MAKERS = ('create', 'get', 'byalt', 'unpickle', 'fk')
+SLOT_MAKERS = ('create', 'get', 'byalt', 'unpickle', 'fk', 'index')
 
 
 def neutral(op):
